@@ -428,7 +428,7 @@ def kinds(tier):
     ]
 
 
-REGISTERED = False
+REGISTERED = True
 LEVEL_TEXT = ("Generated layouts, ignore rules and add requests compared "
               "with a reference walk; a sample of a combinatorial space, no "
               "exhaustiveness claim.")
